@@ -80,6 +80,37 @@ def normDoc (d : DocD) : DocD :=
   { d with campaigns := d.campaigns.map normCampaign, flows := d.flows.map normFlow,
            groups := d.groups.map normGroup, triggers := d.triggers.map normTrigger }
 
+/-! ### what the round trip writes for a valid, ordered document (`shape…`): the input with
+falsy optional values dropped and `destination_uuid` always written -/
+
+def shapeRouter : RouterD → RouterD
+  | .switch op cases cats dflt wait rn => .switch op cases cats dflt wait (rn.filter (fun b => !isNull b))
+  | .random cats rn => .random cats (rn.filter truthy)
+
+def shapeNode (n : NodeD) : NodeD :=
+  { uuid := n.uuid, actions := n.actions.map renderAction, router := n.router.map shapeRouter,
+    exits := n.exits.map renderExit }
+
+/-- positions written for a flow: those of its nodes, in node order -/
+def uiOf (f : FlowD) : List (Str × Blob × Blob) :=
+  f.nodes.filterMap (fun n => (lookupPos n.uuid (f.ui.getD [])).map (fun p => (n.uuid, p)))
+
+def shapeFlow (f : FlowD) : FlowD :=
+  { f with nodes := f.nodes.map shapeNode, ui := if uiOf f = [] then none else some (uiOf f) }
+
+def plainOf (g : GroupD) : GroupD := { name := g.name, uuid := g.uuid }
+
+/-- what a valid trigger loads to -/
+def trigImg (t : TriggerD) : TriggerC :=
+  { type := t.type, keywords := normKeywords t, channel := t.channel,
+    matchType := if falsy (t.matchType.getD jNull) then (if t.type = strK then jMatchF else jNull) else t.matchType.getD jNull,
+    flow := t.flow, groups := t.groups, excludeGroups := t.excludeGroups.getD [] }
+
+def shapeDoc (d : DocD) : DocD :=
+  { campaigns := d.campaigns.map renderCampaign, fields := d.fields, flows := d.flows.map shapeFlow,
+    groups := d.groups.map plainOf, site := d.site,
+    triggers := d.triggers.map (fun t => renderTrigger (trigImg t)), version := d.version }
+
 /-- the relation of the property statement -/
 def Equiv (d d' : DocD) : Prop := normDoc d = normDoc d'
 infix:50 " ≈ " => Equiv
